@@ -92,6 +92,31 @@ def mono_stream(rep, tier, seed, harness, model, wd):
                        "n_disagreements": len(dis)}, no_input=True)
 
 
+def deep_cases(rng):
+    """'at any nesting depth': type expressions nested far beyond the random generator's depth 5 - 150 and 400 levels
+    of 1-tuples, pairs, options, boxes, results and vectors (each level one more constructor)"""
+    out = []
+    for depth in (150, 400):
+        for shape in ("tup1", "pair", "opt", "box", "res", "vec", "mix"):
+            t, v = G.P("u16"), "n7"         # (not u8: Vec<u8> has the byte layout)
+            for i in range(depth):
+                k = shape if shape != "mix" else ["tup1", "opt", "pair", "vec", "box", "res"][i % 6]
+                if k == "tup1":
+                    t, v = ("tup", [t]), f"(0 {v})"
+                elif k == "pair":
+                    t, v = ("tup", [G.P("u8"), t]), f"(0 n{i % 256} {v})"
+                elif k == "opt":
+                    t, v = ("opt", t), f"(1 {v})"
+                elif k == "box":
+                    t, v = ("wrap", "box", t), v
+                elif k == "res":
+                    t, v = (("res", t, G.P("u8")), f"(1 {v})") if i % 2 else (("res", G.P("u8"), t), f"(0 {v})")
+                else:
+                    t, v = ("seq", "vec", 0, t), f"(0 {v})"
+            out.append(R.mk(None, t, v, rng.choice(["-", "00"])))
+    return out
+
+
 def tz_list_check(rep, harness):
     """coq/TzNames.v (the model's oracle for Tz::from_str) against the chrono-tz linked into the implementation"""
     have = C.run([harness, "tznames"], timeout=120).stdout.split()
@@ -106,7 +131,7 @@ def tz_list_check(rep, harness):
 
 def check(rep, tier, seed):
     rng = C.rng_for(seed, "C01")
-    cases = R.builtin_cases(rng, tier)
+    cases = R.builtin_cases(rng, tier) + deep_cases(rng)
     rep.coverage["rule"] = (
         "every type constructor applied to every modelled primitive (exhaustive shallow layer, every tuple arity "
         "1-8, every compiled array length), random type expressions to depth 5; values from per-primitive boundary "
@@ -114,7 +139,8 @@ def check(rep, tier, seed):
         "element containers; chrono: both ends of the year and timestamp ranges, leap days and leap seconds, every "
         "var-int width of year / nanosecond / offset, all 596 zone names); each encoded and decoded with a suffix "
         "through the public entry points (dynamic route: the library's generic impls instantiated at a run-time "
-        "typed value); non-trivial = distinct case lines; BigDecimal: implementation-only stream")
+        "typed value); 14 type expressions nested 150 and 400 levels deep; non-trivial = distinct case lines; BigDecimal: "
+        "implementation-only stream")
     R.run_and_judge(rep, "C01", "C01", cases, tier, seed,
                     extra_trusted=["chrono's calendar (valid dates/times/offsets/timestamps) and chrono-tz's name table are "
                                    "oracles written out in coq/Calendar.v and coq/TzNames.v; their agreement with the crates is "
